@@ -115,6 +115,7 @@ func runCase(c *Case, engine string) *runResult {
 	}
 	r := &runner{ctx: ctx, engine: engine, rt: wazero.NewRuntimeWithConfig(ctx, cfg), c: c, m: newModel(c.Limit),
 		mods: map[string]api.Module{}, compiled: map[int]wazero.CompiledModule{}, res: &runResult{labels: map[string]int{}}, allowExcluded: allowExcluded}
+	r.m.allowExcluded = allowExcluded
 	defer r.rt.Close(ctx)
 	r.res.m = r.m
 	for i, s := range c.Script {
@@ -159,8 +160,10 @@ func (r *runner) instantiate(s Step) string {
 		switch {
 		case p.elemOOB >= 0:
 			r.res.excluded = "out-of-bounds active element segment (finding " + findOOBElem + ")"
-		case r.m.postLinkStage(p) == "data" && p.elemShared:
+		case tmpExcludeSharedElemBeforeFailingData && r.m.postLinkStage(p) == "data" && p.elemShared:
 			r.res.excluded = "element segment into an imported table before a failing data segment (finding " + findDataFirst + ")"
+		case p.aliasMut:
+			r.res.excluded = "one mutable global imported under two indices (finding " + findAliasGlobal + ")"
 		case len(p.nullOver) > 0:
 			r.res.excluded = "null item of an active element segment over a non-null slot (finding " + findNullItem + ")"
 		}
@@ -259,7 +262,11 @@ func lookup(mod api.Module, tbl, slot uint32, sig int) (f api.Function, panicked
 func (r *runner) access(s Step) string {
 	want := r.m.eval(s)
 	if want.skip {
-		r.res.labels["step:skipped"]++
+		if want.excl != "" {
+			r.res.labels[want.excl]++
+		} else {
+			r.res.labels["step:skipped"]++
+		}
 		return ""
 	}
 	mod := r.mods[s.Inst]
@@ -431,7 +438,7 @@ func (r *runner) sweep() string {
 						return msg
 					}
 				} else if f := t.fn[slot]; f != nil {
-					if msg := try(Step{Op: "host", Acc: "htl", Idx: i, Sig: f.sig, Args: []uint64{uint64(slot)}}); msg != "" {
+					if msg := try(Step{Op: "host", Acc: "htl", Idx: i, Sig: f.f.sig, Args: []uint64{uint64(slot)}}); msg != "" {
 						return msg
 					}
 				}
@@ -563,10 +570,17 @@ func TestReplay(t *testing.T) {
 // ---- known findings: specific inputs of the classes the generator excludes ----
 
 const (
-	findNullItem  = "C04-null-elem-item-skipped"
-	findOOBElem   = "C04-oob-elem-segment-ignored"
-	findDataFirst = "C04-data-oob-skips-elems"
+	findNullItem    = "C04-null-elem-item-skipped"
+	findOOBElem     = "C04-oob-elem-segment-ignored"
+	findDataFirst   = "C04-data-oob-skips-elems" // fixed in /repo 0aaef3d: the class is generated again, the input stays
+	findAliasGlobal = "C04-compiler-aliased-imported-globals"
+	findLookupImp   = "C04-lookup-imported-funcref"
 )
+
+// tmpExcludeSharedElemBeforeFailingData: while the repair of C04-data-oob-skips-elems is
+// incomplete (compiler: the failed instance's functions escape before its module context is
+// set up; calling them kills the process) the class stays excluded.
+const tmpExcludeSharedElemBeforeFailingData = true
 
 func knownCases() map[string]*Case {
 	fr := wasmenc.FuncRef
@@ -579,7 +593,20 @@ func knownCases() map[string]*Case {
 	imps := []ImportSpec{{Mod: "m0", Name: "t0", Kind: kTable, Elem: fr, Min: 2, Max: noMax}, {Mod: "m0", Name: "mem", Kind: kMem, Min: 1, Max: noMax},
 		{Mod: "m0", Name: "g0", Kind: kGlobal, VT: wasmenc.I32, Mut: true, Max: noMax}}
 	script := []Step{{Op: "inst", Spec: 0, As: "m0"}, {Op: "inst", Spec: 1, As: "m1"}}
+	gmut := ImportSpec{Mod: "m0", Name: "g0", Kind: kGlobal, VT: wasmenc.I32, Mut: true, Max: noMax}
+	f3 := []FuncSpec{{Sig: 0, ID: 101}, {Sig: 0, ID: 102}, {Sig: 0, ID: 103}}
 	return map[string]*Case{
+		// m1 imports the mutable global m0.g0 twice ($a, $b); f: a++; b++; a++ must leave g0 = 3
+		findAliasGlobal: {Specs: []*ModSpec{{Name: "m0", Globals: []GlobalSpec{{VT: wasmenc.I32, Mut: true, Init: Expr{K: "i32"}}}},
+			{Name: "m1", Imports: []ImportSpec{gmut, gmut}, Funcs: []FuncSpec{{Sig: 0, ID: 201, Ops: []Op{{K: "ginc", A: 0}, {K: "ginc", A: 1}, {K: "ginc", A: 0}}}}}},
+			Script: append(append([]Step{}, script...), Step{Op: "acc", Inst: "m1", Acc: "call", Idx: 0}, Step{Op: "acc", Inst: "m0", Acc: "gget", Idx: 0}), AllowExcluded: true},
+		// m1 imports m0.f2, m0.f1 as functions 0, 1 and puts them into its own table; the host
+		// looks the slots up with experimental/table.LookupFunction
+		findLookupImp: {Specs: []*ModSpec{{Name: "m0", Funcs: f3},
+			{Name: "m1", Imports: []ImportSpec{{Mod: "m0", Name: "f2", Kind: kFunc, Max: noMax}, {Mod: "m0", Name: "f1", Kind: kFunc, Max: noMax}},
+				Tables: []TableSpec{{Elem: fr, Min: 2, Max: noMax}},
+				Elems:  []ElemSpec{{Table: 0, Off: Expr{K: "i32"}, Items: []Expr{{K: "func", V: 0}, {K: "func", V: 1}}}}}},
+			Script: append(append([]Step{}, script...), Step{Op: "host", Inst: "m1", Acc: "htl", Idx: 0, Args: []uint64{0}}, Step{Op: "host", Inst: "m1", Acc: "htl", Idx: 0, Args: []uint64{1}}), AllowExcluded: true},
 		// m1: (elem (table m0.t0) (i32.const 0) funcref (ref.null func)) must overwrite slot 0 with null
 		findNullItem: {Specs: []*ModSpec{base(), {Name: "m1", Imports: imps,
 			Elems: []ElemSpec{{Table: 0, Off: Expr{K: "i32"}, Items: []Expr{{K: "null"}}}}}}, Script: script, AllowExcluded: true},
@@ -607,7 +634,7 @@ func TestKnownFindings(t *testing.T) {
 		return
 	}
 	cases := knownCases()
-	for _, id := range []string{findNullItem, findOOBElem, findDataFirst} {
+	for _, id := range []string{findNullItem, findOOBElem, findDataFirst, findAliasGlobal, findLookupImp} {
 		c := cases[id]
 		msg := ""
 		for _, e := range wz.Engines {
